@@ -5,6 +5,7 @@ import Mathlib.Tactic.Ring
 import SqiGen.Intbig
 import SqiModel.Intbig
 import SqiProofs.C17.Conv
+import SqiProofs.C17.Rand
 namespace SqiProofs.C17
 open SqiModel.Intbig SqiModel.CProg
 
@@ -229,5 +230,86 @@ theorem gen_ibz_sqrt_mod_2p (sqrt a p : Int) (hp : 0 < p) : SqiGen.Intbig.ibz_sq
       by_cases hpar : a % 2 ≠ r % 2
       · simp [hg, hpar, e0]
       · simp [hg, hpar, e0]
+
+/-! ### ibz_rand_interval -/
+
+/-- the rejection `do … while (1)` loop of the translated code is `randLoop` (any body performing the step below) -/
+theorem doLoop_rand (bmina : Int) (L ll mask : Nat) (hL : 1 ≤ L)
+    (f : Int × Int × List Nat × Int × Int → Step (Int × Int × List Nat × Int × Int) (Res (Int × List Nat)))
+    (hf : ∀ (randret r : Int) (s : List Nat) (tmp : Int), f (randret, r, s, 1, tmp) =
+      if s.length < L then Step.exit Res.fail
+      else
+        let v := fromBytesLE (s.take L)
+        let t : Nat := v % 2 ^ (64 * (ll - 1)) + (v / 2 ^ (64 * (ll - 1)) % 2 ^ 64 &&& mask) * 2 ^ (64 * (ll - 1))
+        if (t : Int) ≤ bmina then Step.stop (0, (t : Int), s.drop L, 1, (t : Int))
+        else Step.next (0, (t : Int), s.drop L, 1, (t : Int))) :
+    ∀ (n : Nat) (randret r : Int) (s : List Nat) (tmp : Int), s.length + 1 ≤ n →
+      doLoop f n (randret, r, s, 1, tmp) =
+        match randLoop bmina L ll mask n s with
+        | .ok (t, rest) => some (Sum.inl (0, t, rest, 1, t))
+        | .fail => some (Sum.inr Res.fail)
+        | .ub => none := by
+  intro n
+  induction n with
+  | zero => intro _ _ s _ h; omega
+  | succ n ih =>
+    intro randret r s tmp hn
+    unfold doLoop randLoop
+    rw [hf]
+    by_cases hlen : s.length < L
+    · simp [hlen]
+    · simp only [hlen, if_false]
+      by_cases hle : ((fromBytesLE (s.take L) % 2 ^ (64 * (ll - 1)) +
+          (fromBytesLE (s.take L) / 2 ^ (64 * (ll - 1)) % 2 ^ 64 &&& mask) * 2 ^ (64 * (ll - 1)) : Nat) : Int) ≤ bmina
+      · simp only [hle, if_true]
+      · simp only [hle, if_false]
+        apply ih
+        rw [List.length_drop]; omega
+
+/-- TIE T for `ibz_rand_interval` (mask computation and rejection loop) -/
+theorem gen_ibz_rand_interval (rand a b : Int) (stream : List Nat) :
+    SqiGen.Intbig.ibz_rand_interval rand a b stream = ibzRandInterval a b stream := by
+  unfold SqiGen.Intbig.ibz_rand_interval ibzRandInterval ibzRandIntervalWith
+  simp only []
+  -- parameters
+  set L := sizeInBase2 (b - a) with hLdef
+  have hL1 : 1 ≤ L := by rw [hLdef]; unfold sizeInBase2; split <;> omega
+  have hP : randParams a b = { lenBits := L, lenBytes := (L + 7) / 8, lenLimbs := ((L + 7) / 8 + 8 - 1) / 8, shift := 64 - L % 64 } := rfl
+  rw [hP]
+  simp only []
+  have hbits : mpz_sizeinbase (mpz_sub b a) 2 = (L : Int) := by simp [mpz_sizeinbase, hLdef]
+  rw [hbits]
+  have hshift : ((8 : Int) * 8 - (L : Int) % (8 * 8)) % (8 * 8) = (((64 - L % 64) % 64 : Nat) : Int) := by omega
+  have hmask : ulShr (ulOfInt (-1)) (((8 : Int) * 8 - (L : Int) % (8 * 8)) % (8 * 8))
+      = some (((2 ^ 64 - 1) / 2 ^ ((64 - L % 64) % 64) : Nat) : Int) := by
+    rw [hshift]
+    have hk : (64 - L % 64) % 64 < 64 := Nat.mod_lt _ (by decide)
+    simp only [ulShr]
+    rw [if_pos (by omega)]
+    congr 1
+  rw [hmask]
+  simp only []
+  have hbytes : (((L : Int) + 7) / 8).toNat = (L + 7) / 8 := by omega
+  have hlimbs : ((((L : Int) + 7) / 8 + 8 - 1) / 8 - 1).toNat = ((L + 7) / 8 + 8 - 1) / 8 - 1 := by omega
+  rw [doLoop_rand (b - a) ((L + 7) / 8) (((L + 7) / 8 + 8 - 1) / 8) ((2 ^ 64 - 1) / 2 ^ ((64 - L % 64) % 64)) (by omega)]
+  · cases hr : randLoop (b - a) ((L + 7) / 8) (((L + 7) / 8 + 8 - 1) / 8) ((2 ^ 64 - 1) / 2 ^ ((64 - L % 64) % 64))
+        (stream.length + 1) stream with
+    | ok v => obtain ⟨t, rest⟩ := v; simp [finish, mpz_add]
+    | fail => rfl
+    | ub => exact absurd hr (randLoop_ne_ub _ _ _ _ _ _)
+  · intro randret r s tmp
+    simp only [randombytes, hbytes]
+    by_cases hlen : s.length < (L + 7) / 8
+    · simp [hlen, finish]
+    · simp only [hlen, if_false, maskTopLimb, hlimbs, Int.toNat_natCast, mpz_cmp, mpz_sub]
+      simp only [show ((0 : Int) ≠ 0) = False by simp, if_false]
+      have hsign : ∀ x y : Int, (x - y).sign ≤ 0 ↔ x ≤ y := by
+        intro x y
+        rcases Int.lt_trichotomy (x - y) 0 with h | h | h
+        · rw [Int.sign_eq_neg_one_of_neg h]; omega
+        · rw [h]; simp; omega
+        · rw [Int.sign_eq_one_of_pos h]; omega
+      simp only [hsign]
+  · omega
 
 end SqiProofs.C17
